@@ -138,10 +138,13 @@ CHECKS = {
          'both back ends, 4 height maps): the loaded chain must be a prefix of the chain before/after the interrupted call, and after growing '
          'across file boundaries, saving and reloading nothing stale may come back. Node level (ChainSync scenarios: sync, reorg, time-out '
          'reconnect, clean restart): a new node must load the image, hold a linked chain on one branch and converge to the peer again; and every '
-         'single storage operation is made to fail once, after which memory or a restart must be consistent.',
-    design_ref='DESIGN.md 5.10, 6 (C10)',
+         'single storage operation is made to fail once, after which memory or a restart must be consistent. Added: spec/HeaderSync.tla - the '
+         'header-only sync before the start block across block-file roll-overs (run-length chain, exhaustive at 3 headers per file, the same module '
+         'validates traces of the real headers handler / BlockRepository at 1000 per file with 2050 headers): the next write fails once, crash / '
+         'restart / time-out at any step; FaultRecoverable, LoadOK, CrashLinked on the real memory and on what a new node loads after every step.',
+    design_ref='DESIGN.md 5.10, 6 (C10), 14.2',
     note='No torn writes (a mutation is atomic); MockStorage behind a recording/fault-injecting wrapper; node-level scenarios live in one block '
-         'file (7-block tree), file-boundary crash points are covered at store level.',
+         'file (7-block tree), file-boundary crash points are covered at store level and by HeaderSync for the header-only region.',
     technique='TLA+ model invariant (TLC) + exhaustive crash-point / single-fault enumeration over recorded storage mutations of replayed scenarios'),
  'C08': dict(
     engine='FilterCases',
